@@ -18,6 +18,7 @@ var Points = []string{
 	"polling.send.start", "polling.write.requestTaken", "polling.onPollRequest.beforePublish", "polling.onDataRequest.beforePublish", "ws.send.start", "wt.send.start",
 	"timer.interval.afterTick", "timer.Stop.afterStop", "socket.ping.between",
 	"wt.nilSession.CloseWithError",
+	"transport.Close.window", "polling.DoClose.writableSeen", "polling.DoClose.beforeOnClose",
 }
 
 // Gate receives the hook calls whose first argument was registered with it.
